@@ -173,6 +173,77 @@ Section Concrete.
     = (oval i j k + (vt_add T1 n1 zero3 i j k + vt_add T2 n2 zero3 i j k))%F.
   Proof. rewrite !vt_add_spec. unfold zero3. ring. Qed.
 
+  (* ---- V / VT for entry-list matrices are transposes ---------------------- *)
+  (* The forward volume averaging [v_apply T] (jvec) and the accumulating
+     adjoint [vt_add T] (gradient/jtvec) built from the SAME entry list satisfy
+     <V a, x>_comp = <a, VT x>_model: hypothesis V_T of jt_adjoint holds for the
+     model's pair, for every entry list whose cells lie in the (duplicate-free)
+     cell lists summed over. *)
+  Definition at3 (a : A3) (m : cell3) : K := a (fst (fst m)) (snd (fst m)) (snd m).
+  Definition cell_eqb (m m' : cell3) : bool :=
+    ((fst (fst m) =? fst (fst m')) && (snd (fst m) =? snd (fst m')) && (snd m =? snd m'))%bool.
+
+  Lemma cell_eqb_eq m m' : cell_eqb m m' = true <-> m = m'.
+  Proof.
+    destruct m as [[a b] c], m' as [[a' b'] c']. unfold cell_eqb. cbn.
+    rewrite !andb_true_iff, !Z.eqb_eq. split.
+    - intros [[-> ->] ->]. reflexivity.
+    - intros H. inversion H. auto.
+  Qed.
+
+  Lemma entry_form (T : list (cell3 * cell3 * K)) (a x : A3) :
+    forall (Cm : list cell3), NoDup Cm -> (forall t, In t T -> In (fst (fst t)) Cm) ->
+    sum Cm (fun m => (at3 a m * at3 (vt_add T x zero3) m)%F)
+    = sum T (fun t => (snd t * at3 a (fst (fst t)) * at3 x (snd (fst t)))%F).
+  Proof.
+    intros Cm Hnd Hin.
+    transitivity (sum Cm (fun m => sum T (fun t =>
+                    (if cell_eqb m (fst (fst t))
+                     then at3 a m * (snd t * at3 x (snd (fst t))) else 0)%F))).
+    { apply sum_ext. intros m _. unfold at3 at 2. rewrite vt_add_spec. unfold zero3.
+      transitivity (at3 a m * sum T (fun t =>
+        (if cell_eqb m (fst (fst t)) then snd t * at3 x (snd (fst t)) else 0))%F)%F.
+      - unfold cell_eqb, at3. ring.
+      - rewrite <- (sum_scale_l Fth). apply sum_ext. intros t _.
+        destruct (cell_eqb m (fst (fst t))); ring. }
+    rewrite (sum_exchange Fth). apply sum_ext. intros t Ht.
+    rewrite (sum_single Fth cell_eqb Cm (fst (fst t))
+               (fun m => (at3 a m * (snd t * at3 x (snd (fst t))))%F) cell_eqb_eq Hnd (Hin t Ht)).
+    ring.
+  Qed.
+
+  Lemma entry_form_V (T : list (cell3 * cell3 * K)) (a x : A3) :
+    forall (Cc : list cell3), NoDup Cc -> (forall t, In t T -> In (snd (fst t)) Cc) ->
+    sum Cc (fun c => (at3 (v_apply T a) c * at3 x c)%F)
+    = sum T (fun t => (snd t * at3 a (fst (fst t)) * at3 x (snd (fst t)))%F).
+  Proof.
+    intros Cc Hnd Hin.
+    transitivity (sum Cc (fun c => sum T (fun t =>
+                    (if cell_eqb c (snd (fst t))
+                     then (snd t * at3 a (fst (fst t))) * at3 x c else 0)%F))).
+    { apply sum_ext. intros c _. unfold at3 at 1, v_apply. cbv zeta.
+      rewrite <- (sum_scale_r Fth). apply sum_ext. intros t _.
+      unfold cell_eqb, at3. destruct ((fst (fst c) =? fst (fst (snd (fst t))))
+        && (snd (fst c) =? snd (fst (snd (fst t)))) && (snd c =? snd (snd (fst t))))%bool; ring. }
+    rewrite (sum_exchange Fth). apply sum_ext. intros t Ht.
+    rewrite (sum_single Fth cell_eqb Cc (snd (fst t))
+               (fun c => ((snd t * at3 a (fst (fst t))) * at3 x c)%F) cell_eqb_eq Hnd (Hin t Ht)).
+    ring.
+  Qed.
+
+  Theorem v_apply_vt_add_transpose (T : list (cell3 * cell3 * K)) (a x : A3)
+          (Cm Cc : list cell3) :
+    NoDup Cm -> NoDup Cc ->
+    (forall t, In t T -> In (fst (fst t)) Cm /\ In (snd (fst t)) Cc) ->
+    sum Cc (fun c => (at3 (v_apply T a) c * at3 x c)%F)
+    = sum Cm (fun m => (at3 a m * at3 (vt_add T x zero3) m)%F).
+  Proof.
+    intros Hm Hc Hin.
+    rewrite (entry_form_V T a x Cc Hc) by (intros t Ht; apply (Hin t Ht)).
+    rewrite (entry_form T a x Cm Hm) by (intros t Ht; apply (Hin t Ht)).
+    reflexivity.
+  Qed.
+
   (* ---- lifting to the loop nest ------------------------------------------ *)
   Definition zsum (lo hi : Z) (f : Z -> K) : K :=
     Zfold lo hi (fun t acc => (acc + f t)%F) 0%F.
